@@ -1,5 +1,5 @@
 """Rule families shared by the property modules (CAST, PANIC, ALLOC, ...)."""
-from .core import callee_of, callee_names, is_call_to, fold, receiver_root
+from .core import callee_of, callee_names, is_call_to, fold, receiver_root, dominating_edges
 from .ranges import Ranges, canon, ty_range, INT, INF, LEN_MAX
 
 F64_EXACT = (-(2**53), 2**53)
@@ -387,8 +387,13 @@ PARTIAL = {
     'bytes::bytes::Bytes::slice': ('range_len',), 'bytes::bytes::Bytes::split_to': ('le_len', 1), 'bytes::bytes::Bytes::split_off': ('le_len', 1),
     'bytes::bytes_mut::BytesMut::split_to': ('le_len', 1), 'bytes::bytes_mut::BytesMut::split_off': ('le_len', 1),
     'core::num::<impl i64>::abs': ('not_min',), 'core::num::<impl i32>::abs': ('not_min',),
-    'alloc::string::String::remove': ('lt_len', 1), 'core::str::<impl str>::split_at': ('le_len', 1),
+    'alloc::string::String::remove': ('char_boundary', 1), 'core::str::<impl str>::split_at': ('char_boundary', 1),
+    'core::str::<impl str>::split_at_mut': ('char_boundary', 1), 'alloc::string::String::truncate': ('char_boundary', 1),
+    'alloc::string::String::split_off': ('char_boundary', 1), 'alloc::string::String::insert': ('char_boundary', 1),
+    'alloc::string::String::insert_str': ('char_boundary', 1),
 }
+# producers of byte positions that are always on a character boundary
+BOUNDARY_PRODUCERS = ('::find', '::rfind', '::len', '::floor_char_boundary', '::ceil_char_boundary', '::len_utf8', '::char_indices', '::match_indices', '::rmatch_indices')
 INDEXABLE = ('alloc::vec::Vec<', '[', '&[', 'bytes::bytes::Bytes', 'bytes::bytes_mut::BytesMut', 'alloc::string::String', 'str',
              'alloc::collections::vec_deque::VecDeque<')
 
@@ -501,6 +506,10 @@ def panic_sites(B, R=None):
                 pass
             else:
                 sites.append({'kind': 'index', 'bb': bb, 'desc': '%s[?]' % d, 'need': ('unknown', ra[1])})
+            if bty in ('str', 'alloc::string::String') and ra[0] in ('to', 'to_incl', 'from', 'range', 'incl'):
+                # slicing text by byte positions additionally needs every end to fall on a UTF-8 character boundary
+                for endop in ra[1:]:
+                    sites.append({'kind': 'charbound', 'bb': bb, 'desc': '%s[char boundary at %s]' % (d, describe(B, canon(B, endop))), 'need': ('charbound', endop, t['args'][0])})
             continue
         if any(n in UNWRAPS for n in names):
             recv = canon(B, t['args'][0])
@@ -636,6 +645,8 @@ def discharge(B, R, site):
         return 'bad', 'explicit panic is reachable'
     if k == 'never':
         return 'bad', 'indexing a map panics on a missing key'
+    if k == 'charbound':
+        return _charbound(B, R, bb, need[1], need[2], ment)
     if k == 'partial':
         n, t = need[1], need[2]
         spec = PARTIAL[n]
@@ -647,6 +658,8 @@ def discharge(B, R, site):
             if R.prove_le(idx, ln, bb, strict=(spec[0] == 'lt_len')):
                 return 'ok', 'index within length'
             return ('undecided' if ment(idx, ln) else 'bad'), 'index may exceed length'
+        if spec[0] == 'char_boundary':
+            return _charbound(B, R, bb, t['args'][spec[1]], t['args'][0], ment)
         if spec[0] == 'len_eq':
             a = ('len', canon(B, t['args'][0]))
             b_ = ('len', canon(B, t['args'][1]))
@@ -689,6 +702,28 @@ def discharge(B, R, site):
             return ('undecided' if ment(canon(B, t['args'][0])) else 'bad'), 'abs(MIN) overflows'
         return 'undecided', 'partial API %s' % n
     return 'undecided', 'unrecognised obligation'
+
+
+def _charbound(B, R, bb, idx_op, str_op, ment):
+    """byte position idx_op into the text str_op must be on a UTF-8 character boundary (String::truncate, split_at, &s[a..b] ...)"""
+    ci = canon(B, idx_op)
+    rng = R.range_of(idx_op, bb)
+    if rng == (0, 0):
+        return 'ok', 'position 0'
+    if ci == ('len', canon(B, str_op)):
+        return 'ok', 'position = length of the same text'
+    o = B.origin(idx_op)
+    base = o
+    while isinstance(base, tuple) and base and base[0] in ('payload', 'try', 'proj', 'cast'):
+        base = base[1] if base[0] != 'cast' else base[3]
+    if isinstance(base, tuple) and base and base[0] == 'call' and base[1] and any(str(base[1]).endswith(x) for x in BOUNDARY_PRODUCERS):
+        return 'ok', 'position produced by %s, always a character boundary' % str(base[1]).rsplit('::', 1)[-1]
+    for (src, vals, dst) in dominating_edges(B, bb):
+        sb = B.switch_bool_edges(src)
+        if sb and sb[0][0] == 'call' and (callee_of(sb[0][2])[0] or '').endswith('is_char_boundary') and dst == sb[1] and len(sb[0][2]['args']) > 1 \
+                and canon(B, sb[0][2]['args'][1]) == ci:
+            return 'ok', 'dominated by is_char_boundary() of the same position'
+    return 'bad', 'byte position %s into a str is not known to be a UTF-8 character boundary: the call panics when it falls inside a multi-byte character (content-dependent)' % describe(B, ci)
 
 
 def _static_len(B, op):
